@@ -560,7 +560,8 @@ fn build(pool: &PoolSigner, m: &Msg) -> BuiltMsg {
         attrs.push(cms::attr_binary_signing_time(T0));
     }
     for k in 0..m.extras {
-        attrs.push(cms::attr_extra(100 + k as u32, 5 + 9 * k));
+        // additional signed attributes in every shape RFC 5652 allows (one value, several values, any type)
+        attrs.push(cms::attr_extra_shaped(100 + k as u32, 5 + 9 * k, k + m.extras + m.content.len()));
     }
     if let Some(total) = m.attrs_total {
         let ok = cms::pad_attrs_to(&mut attrs, total, 10);
